@@ -613,6 +613,111 @@ func ruleT4(c *Ctx) {
 		}
 	}
 	if filterFd == nil {
+		// table-driven form: a package-level map from codes to switches (`func(settings) bool` returning one field),
+		// consulted by a function that publishes codes without an entry (`!found || on(settings)`)
+		var table types.Object
+		var tcases []caseInfo
+		for _, f := range spk.Syntax {
+			for _, d := range f.Decls {
+				gd, ok := d.(*ast.GenDecl)
+				if !ok || gd.Tok != token.VAR {
+					continue
+				}
+				for _, sp := range gd.Specs {
+					vs := sp.(*ast.ValueSpec)
+					for i, v := range vs.Values {
+						cl, ok := ast.Unparen(v).(*ast.CompositeLit)
+						if !ok || i >= len(vs.Names) {
+							continue
+						}
+						mt, ok := sinfo.TypeOf(cl).Underlying().(*types.Map)
+						if !ok || types.TypeString(mt.Key(), nil) != "string" {
+							continue
+						}
+						var cs []caseInfo
+						hit := 0
+						for _, el := range cl.Elts {
+							kv, ok := el.(*ast.KeyValueExpr)
+							if !ok {
+								continue
+							}
+							code, ok := stringConst(sinfo, kv.Key)
+							if !ok {
+								continue
+							}
+							if _, w := written[code]; w {
+								hit++
+							}
+							ci := caseInfo{codes: []string{code}, pos: kv.Pos()}
+							switch val := ast.Unparen(kv.Value).(type) {
+							case *ast.FuncLit:
+								if r := singleReturn(val.Body.List); r != nil {
+									if se, ok := ast.Unparen(r).(*ast.SelectorExpr); ok {
+										ci.field = se.Sel.Name
+									}
+								}
+							case *ast.SelectorExpr:
+								ci.field = val.Sel.Name
+							}
+							cs = append(cs, ci)
+						}
+						if hit >= 2 {
+							table, tcases = sinfo.Defs[vs.Names[i]], cs
+						}
+					}
+				}
+			}
+		}
+		if table != nil {
+			for _, f := range spk.Syntax {
+				for _, d := range f.Decls {
+					fd, ok := d.(*ast.FuncDecl)
+					if !ok || fd.Body == nil || filterFd != nil || fd.Type.Results == nil || len(fd.Type.Results.List) != 1 || types.TypeString(sinfo.TypeOf(fd.Type.Results.List[0].Type), nil) != "bool" {
+						continue
+					}
+					var okVar types.Object
+					ast.Inspect(fd.Body, func(n ast.Node) bool {
+						as, ok := n.(*ast.AssignStmt)
+						if !ok || len(as.Lhs) != 2 || len(as.Rhs) != 1 {
+							return true
+						}
+						if ix, ok := ast.Unparen(as.Rhs[0]).(*ast.IndexExpr); ok && sinfo.Uses[identOf(ix.X)] == table {
+							okVar = sinfo.Defs[identOf(as.Lhs[1])]
+							if okVar == nil {
+								okVar = sinfo.Uses[identOf(as.Lhs[1])]
+							}
+						}
+						return true
+					})
+					if okVar == nil {
+						continue
+					}
+					filterFd, cases = fd, tcases
+					// default: `return !found || ...` or `if !found { return true }`
+					ast.Inspect(fd.Body, func(n ast.Node) bool {
+						switch x := n.(type) {
+						case *ast.ReturnStmt:
+							if len(x.Results) == 1 {
+								if be, ok := ast.Unparen(x.Results[0]).(*ast.BinaryExpr); ok && be.Op == token.LOR {
+									if u, ok := ast.Unparen(be.X).(*ast.UnaryExpr); ok && u.Op == token.NOT && sinfo.Uses[identOf(u.X)] == okVar {
+										hasDefault, defaultTrue = true, true
+									}
+								}
+							}
+						case *ast.IfStmt:
+							if u, ok := ast.Unparen(x.Cond).(*ast.UnaryExpr); ok && u.Op == token.NOT && sinfo.Uses[identOf(u.X)] == okVar {
+								if r := singleReturn(x.Body.List); r != nil {
+									hasDefault, defaultTrue = true, isTrue(r)
+								}
+							}
+						}
+						return true
+					})
+				}
+			}
+		}
+	}
+	if filterFd == nil {
 		c.undecided("T4", "server", "diagnostic filter", token.NoPos, "no function deciding by diagnostic code (switch or if chain over the codes the analyzer writes) found in package server")
 		return
 	}
